@@ -2,6 +2,7 @@
    Core-only (no Mathlib / Batteries anywhere below), so it links as a native executable. -/
 import Driver.Util
 import Driver.C15
+import Driver.Wal
 import Driver.Lin
 import Driver.Crash
 import Driver.Codec
@@ -30,6 +31,7 @@ def main (args : List String) : IO UInt32 := do
   let hout ← IO.getStdout
   match args with
   | ["c15"] => loop Drv.C15.step hin hout (); hout.flush; return 0
+  | ["wal"] => loop Drv.Wal.step hin hout {}; hout.flush; return 0
   | ["lin"] => loop Drv.Lin.step hin hout (); hout.flush; return 0
   | ["crash"] => loop Drv.Crash.step hin hout (); hout.flush; return 0
   | ["engine"] => loop Drv.Engine.step hin hout none; hout.flush; return 0
